@@ -249,6 +249,11 @@ func tkeys(m map[string][]string) []string {
 
 func (g *DDLGen) pickTable() (string, string, string, *gTable) {
 	w, s := g.schemaRef(true)
+	if !g.r.Chance(g.Wild) {
+		if w2, s2, ok := g.schemaWith(true); ok {
+			w, s = w2, s2
+		}
+	}
 	sc := g.st.schemas[s]
 	if sc != nil && len(sc.tables) > 0 && !g.r.Chance(g.Wild) {
 		ks := keys(sc.tables)
@@ -278,6 +283,20 @@ func (g *DDLGen) Next() Op {
 	var o Op
 	for {
 		k := r.Intn(100)
+		if !r.Chance(g.Wild) {
+			needTables := (k >= 32 && k < 71)
+			needTypes := (k >= 83 && k < 95)
+			needSchemas := (k >= 8 && k < 12)
+			if needTables && !g.anyTables() {
+				continue
+			}
+			if needTypes && !g.anyTypes() {
+				continue
+			}
+			if needSchemas && len(g.st.order) < 2 {
+				continue
+			}
+		}
 		switch {
 		case k < 8:
 			o = Op{Op: "createSchema", Name: r.Pick(g.Schemas), Guard: r.Chance(35)}
@@ -307,6 +326,9 @@ func (g *DDLGen) Next() Op {
 			w, s := g.schemaRef(true)
 			o = Op{Op: "createTable", Schema: w, Name: r.Pick(g.Tables), Guard: r.Chance(25)}
 			nc := 1 + r.Intn(4)
+			if nc > len(g.Columns) {
+				nc = len(g.Columns)
+			}
 			perm := r.Perm(len(g.Columns))
 			t := &gTable{}
 			for i := 0; i < nc; i++ {
@@ -445,11 +467,16 @@ func (g *DDLGen) Next() Op {
 			o = Op{Op: "createComposite", Schema: w, Name: r.Pick(g.Types)}
 			if sc := g.st.schemas[s]; sc != nil {
 				if _, ok := sc.types[o.Name]; !ok {
-					sc.types[o.Name] = []string{"\x00composite"}
+					sc.types[o.Name] = []string{}
 				}
 			}
 		case k < 88:
 			w, s := g.schemaRef(true)
+			if !r.Chance(g.Wild) {
+				if w2, s2, ok := g.schemaWith(false); ok {
+					w, s = w2, s2
+				}
+			}
 			name := r.Pick(g.Types)
 			if sc := g.st.schemas[s]; sc != nil && len(sc.types) > 0 && !r.Chance(g.Wild) {
 				ks := tkeys(sc.types)
@@ -480,6 +507,11 @@ func (g *DDLGen) Next() Op {
 			n := 1 + r.Intn(2)
 			for i := 0; i < n; i++ {
 				w, s := g.schemaRef(true)
+				if !r.Chance(g.Wild) {
+					if w2, s2, ok := g.schemaWith(false); ok {
+						w, s = w2, s2
+					}
+				}
 				name := r.Pick(g.Types)
 				if sc := g.st.schemas[s]; sc != nil && len(sc.types) > 0 && !r.Chance(g.Wild) {
 					ks := tkeys(sc.types)
@@ -508,6 +540,11 @@ func (g *DDLGen) Next() Op {
 				o.Schema, o.Name, o.Col = w, name, g.pickCol(t, true)
 			case "type":
 				w, s := g.schemaRef(true)
+				if !r.Chance(g.Wild) {
+					if w2, s2, ok := g.schemaWith(false); ok {
+						w, s = w2, s2
+					}
+				}
 				name := r.Pick(g.Types)
 				if sc := g.st.schemas[s]; sc != nil && len(sc.types) > 0 && !r.Chance(g.Wild) {
 					ks := tkeys(sc.types)
@@ -520,6 +557,73 @@ func (g *DDLGen) Next() Op {
 	}
 	o.render()
 	return o
+}
+
+func (g *DDLGen) anyTables() bool {
+	for _, s := range g.st.schemas {
+		if len(s.tables) > 0 {
+			return true
+		}
+	}
+	return false
+}
+func (g *DDLGen) anyTypes() bool {
+	for _, s := range g.st.schemas {
+		if len(s.types) > 0 {
+			return true
+		}
+	}
+	return false
+}
+
+// schemaWith returns a schema (written, effective) that currently has tables (or types)
+func (g *DDLGen) schemaWith(tables bool) (string, string, bool) {
+	var cands []string
+	for _, n := range g.st.order {
+		s := g.st.schemas[n]
+		if s == nil {
+			continue
+		}
+		if (tables && len(s.tables) > 0) || (!tables && len(s.types) > 0) {
+			cands = append(cands, n)
+		}
+	}
+	if len(cands) == 0 {
+		return "", "", false
+	}
+	s := cands[g.r.Intn(len(cands))]
+	if s == "public" && g.r.Chance(70) {
+		return "", "public", true
+	}
+	return s, s, true
+}
+
+// SyncFrom rebuilds the generator's light state from a dump of the real catalog, so that the bias
+// towards applicable statements follows what the implementation actually holds.
+func (g *DDLGen) SyncFrom(d []DSchema) {
+	g.st.schemas = map[string]*gSchema{}
+	g.st.order = nil
+	for _, s := range d {
+		if s.Name == "pg_temp" {
+			continue
+		}
+		if _, dup := g.st.schemas[s.Name]; dup {
+			continue
+		}
+		gs := &gSchema{tables: map[string]*gTable{}, types: map[string][]string{}}
+		for _, t := range s.Tables {
+			gt := &gTable{}
+			for _, c := range t.Cols {
+				gt.cols = append(gt.cols, c.Name)
+			}
+			gs.tables[t.Name] = gt
+		}
+		for _, t := range s.Types {
+			gs.types[t.Name] = append([]string{}, t.Vals...)
+		}
+		g.st.schemas[s.Name] = gs
+		g.st.order = append(g.st.order, s.Name)
+	}
 }
 
 func (g *DDLGen) History(n int) []Op {
